@@ -184,7 +184,8 @@ def judge(case, o, m):
     sc = o["scalars"]
     # ---- model
     if "fail" in m:
-        fail("model-error", "model driver: " + m["fail"], kind="disagreement")
+        fail("model-error", "model driver: " + m["fail"])
+        fails[-1]["kind"] = "disagreement"
         return fails, False
     if m.get("reject"):
         fail("model-reject", "the model rejects this combination but the library evaluated it",
